@@ -2114,6 +2114,226 @@ def check_restrictions(ctx: Ctx, m: Model, ac: str) -> None:
         raise AnchorError(f"{f.where()}: expected one _bc_for_subgrid call inside the subproblem loop, found {n_loop}")
 
 
+def _find_method(ctx: Ctx, mod, cls: str, name: str):
+    """(module, qualname, def) of method `name` of class `cls`, looking into base classes that are analysed targets."""
+    seen = set()
+    todo = [(mod, cls)]
+    while todo:
+        mo, cl = todo.pop()
+        if (mo.rel, cl) in seen:
+            continue
+        seen.add((mo.rel, cl))
+        d = mo.get(f"{cl}.{name}")
+        if isinstance(d, ast.FunctionDef):
+            return mo, f"{cl}.{name}", d
+        c = mo.get(cl)
+        if isinstance(c, ast.ClassDef):
+            for b in c.bases:
+                bn = (u(b)).split(".")[-1]
+                for rel, tcls in TARGETS:
+                    if tcls == bn:
+                        todo.append((ctx.repo.module(rel), tcls))
+    return None
+
+
+def _arg_for(call: ast.Call, fndef: ast.FunctionDef, pname: str, skip_self: bool = True) -> Optional[ast.expr]:
+    params = [a.arg for a in fndef.args.args][1 if skip_self else 0:]
+    for k in call.keywords:
+        if k.arg == pname:
+            return k.value
+    if pname in params and params.index(pname) < len(call.args) and not any(isinstance(a, ast.Starred) for a in call.args):
+        return call.args[params.index(pname)]
+    return None
+
+
+def check_frame(ctx: Ctx, m: Model, cls: str) -> None:
+    """R10: the local coordinate system of a 2d grid embedded in 3d is fitted once for the whole grid: a map_grid(<grid>)
+    reached from the in-loop local discretization with the sub-grid as <grid> must be given the rotation by its caller."""
+    f, mod = m.f, m.f.mod
+    call = None
+    for up in m.updates:
+        d = f.unique_def(up.m, up.stmt)
+        v = d.value if d is not None else None
+        if isinstance(v, ast.Name):
+            v = f.unique_plain(v.id, d.stmt)  # type: ignore[union-attr]
+        if isinstance(v, ast.Call):
+            call = v
+            break
+    if call is None or not (isinstance(call.func, ast.Attribute) and u(call.func.value) == "self"):
+        raise f.und("local discretization is not a call of a method of self")
+    if not call.args or u(call.args[0]) != m.T["sub"]:
+        raise f.und("local discretization is not called with the sub-grid as first argument", call)
+    top = _find_method(ctx, mod, cls, call.func.attr)
+    if top is None:
+        raise AnchorError(f"{f.where()}: method {call.func.attr} not found")
+
+    def outside_loop(e: Optional[ast.expr]) -> Optional[bool]:
+        """the value passed is fixed before the loop (True) / computed per sub-problem (False) / unknown (None)"""
+        if not isinstance(e, ast.Name):
+            return None
+        ds = f.defs.get(e.id, [])
+        if not ds:
+            return None
+        return all(not m.in_loop(d.stmt) for d in ds if d.kind != "sub")
+
+    # chain: list of (module, qual, def, grid parameter name, call that entered it)
+    def visit(mo, qual, fd: ast.FunctionDef, gparam: str, chain: list, depth: int) -> None:
+        for n in ast.walk(fd):
+            if not isinstance(n, ast.Call):
+                continue
+            if call_name(n) == "map_grid" and n.args and isinstance(n.args[0], ast.Name) and n.args[0].id == gparam:
+                rarg = kwarg(n, "R") if kwarg(n, "R") is not None else (n.args[2] if len(n.args) > 2 else None)
+                ok: Optional[bool]
+                why = "map_grid refits the frame from the nodes of the sub-grid"
+                if rarg is None:
+                    ok = False
+                elif isinstance(rarg, ast.Name) and rarg.id in [a.arg for a in fd.args.args]:
+                    # follow the parameter up the chain to the call in the loop
+                    ok = None
+                    cur_p = rarg.id
+                    links = chain[:]  # [(callee def, call node, caller def or None for discretize)]
+                    while links:
+                        cfd, ccall, caller_fd = links.pop()
+                        a = _arg_for(ccall, cfd, cur_p)
+                        if a is None:
+                            ok, why = False, f"parameter {cur_p} of {cfd.name} is not passed, so map_grid refits the frame per sub-grid"
+                            break
+                        if caller_fd is None:
+                            o = outside_loop(a)
+                            ok = o
+                            if o is False:
+                                why = f"the rotation passed ({u(a)}) is computed inside the sub-problem loop"
+                            break
+                        if isinstance(a, ast.Name) and a.id in [x.arg for x in caller_fd.args.args]:
+                            cur_p = a.id
+                            continue
+                        ok = None
+                        break
+                else:
+                    ok = None
+                if ok is None:
+                    raise Undecided(f"{mo.rel}:{qual}: cannot decide where the rotation given to map_grid comes from [{u(n)[:80]}]")
+                ctx.check("R10", ok, mo, qual, n,
+                          f"sub-problems of {cls}.discretize must share one local coordinate system (fitted once from the whole "
+                          f"grid): quantities that depend on the orientation of the frame (vector source, vector unknowns on a 2d "
+                          f"grid embedded in 3d) otherwise change sign between sub-grids whose fitted normal flips; {why}",
+                          construct=f"{cls}.discretize sub-problems: frame of map_grid({gparam})",
+                          facts={"call": u(n), "reached_from": f"{cls}.discretize"})
+            elif depth > 0 and isinstance(n.func, ast.Attribute) and u(n.func.value) == "self" \
+                    and any(isinstance(a, ast.Name) and a.id == gparam for a in n.args):
+                sub = _find_method(ctx, mod, cls, n.func.attr)
+                if sub is None:
+                    continue
+                smo, squal, sfd = sub
+                pos = [i for i, a in enumerate(n.args) if isinstance(a, ast.Name) and a.id == gparam][0]
+                sparams = [a.arg for a in sfd.args.args][1:]
+                if pos < len(sparams):
+                    visit(smo, squal, sfd, sparams[pos], chain + [(sfd, n, fd)], depth - 1)
+
+    tmo, tqual, tfd = top
+    tparams = [a.arg for a in tfd.args.args]
+    if len(tparams) < 2:
+        raise AnchorError(f"{tmo.rel}:{tqual}: grid parameter expected")
+    visit(tmo, tqual, tfd, tparams[1], [(tfd, call, None)], 1)
+
+
+def check_eta(ctx: Ctx, m: Model) -> None:
+    """R8 (array-valued eta): an array indexed by the sub-faces of the full grid that is gathered inside the loop with
+    l2g_faces (numbering of the active grid) must first be restricted to the active grid."""
+    f, mod, q, T = m.f, m.f.mod, m.f.qual, m.T
+    CALLEE_HOME.setdefault("adjust_eta_length", (FVUTILS, "adjust_eta_length"))
+    for s in f.stmts:
+        if not m.in_loop(s) or isinstance(s, (ast.For, ast.If, ast.While, ast.With, ast.FunctionDef)):
+            continue
+        for c in [n for n in ast.walk(s) if isinstance(n, ast.Call) and call_name(n) == "adjust_eta_length"]:
+            b = bind_call(ctx, c, f.where())
+            pn = [n.id for n in b[""].elts]  # type: ignore[attr-defined]
+            if len(pn) < 3 or any(x not in b for x in pn[:3]):
+                raise f.und("adjust_eta_length is not called with (eta, sub-grid, faces)", c)
+            eta, sub, faces = b[pn[0]], b[pn[1]], b[pn[2]]
+            ctx.check("R8", u(sub) == T["sub"] and u(faces) == T["l2g_faces"], mod, q, s,
+                      f"eta of a sub-problem must be gathered for (sub-grid, l2g_faces) = ({T['sub']}, {T['l2g_faces']}); found "
+                      f"({u(sub)}, {u(faces)})", construct="in-loop adjust_eta_length: sub-grid and faces")
+            if not isinstance(eta, ast.Name):
+                raise f.und("eta passed to adjust_eta_length is not a name", c)
+
+            def origin(name: str, at: ast.stmt, depth: int = 3) -> set[str]:
+                out: set[str] = set()
+                for d in f.reaching(name, at):
+                    v = d.value
+                    if v is None or d.kind != "plain":
+                        out.add("unknown")
+                    elif isinstance(v, ast.Name) and depth > 0:
+                        out |= origin(v.id, d.stmt, depth - 1)
+                    elif any(isinstance(k, ast.Call) and call_name(k) == "adjust_eta_length" for k in ast.walk(v)) and not m.in_loop(d.stmt):
+                        k = [k for k in ast.walk(v) if isinstance(k, ast.Call) and call_name(k) == "adjust_eta_length"][0]
+                        kb = bind_call(ctx, k, f.where())
+                        fd = f.reaching(u(kb[pn[2]]), d.stmt) if isinstance(kb.get(pn[2]), ast.Name) else []
+                        okf = any(x.kind == "tuple" and isinstance(x.value, ast.Call) and call_name(x.value) == "extract_subgrid" and x.pos == 1 for x in fd)
+                        out.add("active" if u(kb.get(pn[1])) == m.grid and okf else "unknown")  # type: ignore[arg-type]
+                    elif any(isinstance(k, ast.Attribute) and k.attr == "PARAMETERS" for k in ast.walk(f.canon(v, d.stmt))):
+                        out.add("full")
+                    else:
+                        out.add("unknown")
+                return out
+
+            o = origin(eta.id, s)
+            if "active" in o:
+                ok = True
+            elif o == {"full"}:
+                ok = False
+            else:
+                raise f.und(f"cannot decide which grid the array {eta.id} passed to adjust_eta_length is numbered on", c)
+            ctx.check("R8", ok, mod, q, s,
+                      f"{eta.id} comes straight from the parameter dictionary (one entry per sub-face of the full grid) but is "
+                      f"gathered with {T['l2g_faces']}, which numbers the faces of the active grid: on a partial discretization "
+                      f"(active grid smaller than the grid) the wrong entries are picked; restrict it to the active grid first "
+                      f"(adjust_eta_length(eta, {m.grid}, <faces of the extracted grid>))",
+                      construct=f"in-loop adjust_eta_length: {eta.id} numbered on the active grid", facts={"origin": sorted(o)})
+
+
+def check_active_cells_unique(ctx: Ctx) -> None:
+    """R11: the cells returned by cell_ind_for_partial_update (used to extract the active grid) contain no duplicates:
+    contributions of independent, jointly usable modes (cells / faces / nodes) concatenated with hstack must be uniqued."""
+    mod = ctx.repo.module(FVUTILS)
+    q = "cell_ind_for_partial_update"
+    f = Fn(mod, q)
+    rets = [s for s in f.stmts if isinstance(s, ast.Return) and isinstance(s.value, ast.Tuple) and len(s.value.elts) == 2]
+    if len(rets) != 1:
+        raise Undecided(f"{FVUTILS}:{q}: expected one `return cells, faces`")
+    e = rets[0].value.elts[0]  # type: ignore[union-attr]
+    uniq_in_ret = any(isinstance(n, ast.Call) and call_name(n) in ("unique", "union1d") for n in ast.walk(e))
+    names = [n.id for n in ast.walk(e) if isinstance(n, ast.Name) and n.id in f.defs]
+    if len(names) != 1:
+        raise Undecided(f"{FVUTILS}:{q}: returned cell set is not derived from one local array [{u(e)[:60]}]")
+    nm = names[0]
+    accum, uniq, other = [], [], []
+    for d in f.defs[nm]:
+        v = d.value
+        if d.kind != "plain" or v is None:
+            other.append(d)
+        elif isinstance(v, ast.Call) and call_name(v) in ("hstack", "concatenate", "append", "r_") and nm in names_in(v):
+            accum.append(d)
+        elif isinstance(v, ast.Call) and call_name(v) in ("unique", "union1d") and nm in names_in(v):
+            uniq.append(d)
+        elif isinstance(v, ast.Call) and call_name(v) in ("empty", "zeros", "array") and nm not in names_in(v):
+            pass  # initial empty array
+        else:
+            other.append(d)
+    if other:
+        raise Undecided(f"{FVUTILS}:{q}: unrecognised definition of {nm} [{u(other[0].stmt)[:80]}]")
+    arms = {id(f.arm_of(d.stmt)[0]) for d in accum}
+    if len(accum) < 2 or len(arms) < 2:
+        raise Undecided(f"{FVUTILS}:{q}: the cell set is not accumulated over several independent modes")
+    unions = [d for d in uniq if call_name(d.value) == "union1d"]  # type: ignore[arg-type]
+    final_unique = uniq_in_ret or any(all(f.before(a.stmt, d.stmt) for a in accum) and f.precedes(d.stmt, rets[0]) for d in uniq)
+    ctx.check("R11", final_unique, mod, q, accum[-1].stmt,
+              f"{nm} is the concatenation of the cells found by {len(accum)} independent modes (cells / faces / nodes) that may be "
+              f"given together; without np.unique the same cell is returned several times and extract_subgrid builds an inconsistent "
+              f"active grid", construct=f"{nm}: duplicates removed before it is returned",
+              facts={"accumulations": [u(d.stmt) for d in accum], "unique": bool(final_unique), "union1d_steps": len(unions)})
+
+
 def run(ctx: Ctx) -> None:
     for rel, cls in TARGETS:
         mod = ctx.repo.module(rel)
@@ -2122,6 +2342,8 @@ def run(ctx: Ctx) -> None:
         key_spaces = check_chain(ctx, m, st)
         check_tables(ctx, mod, cls, key_spaces)
         check_restrictions(ctx, m, st["ac"])
+        check_eta(ctx, m)
+        check_frame(ctx, m, cls)
         check_sub_bc(ctx, mod, cls)
         ctx.sample({"function": f"{cls}.discretize", "subproblem_tuple": m.T,
                     "accumulators": {a: f"{r.txt()} x {c.txt()}" for a, (r, c) in m.shape.items()},
@@ -2131,6 +2353,7 @@ def run(ctx: Ctx) -> None:
     check_producer(ctx)
     check_partition(ctx)
     check_helper(ctx)
+    check_active_cells_unique(ctx)
     if ctx.tier == "thorough":
         ctx.note("observation (not decided statically, reported by a refactoring agent on the unmodified tree): on a 2d grid "
                  "embedded in 3d, Mpfa.discretize with update_discretization=True + specified_cells gives vector_source / "
